@@ -538,5 +538,43 @@ def tstep (eps : α) (w : World α) (t : Trans) : TOp α → World α × Out
   | .setParams xs => w.update t.params fun s v => setAll eps s v xs
   | .setConstants xs => w.update t.constants fun s v => setAll eps s v xs
 
+/-! ### several live transforms in one process -/
+
+/-- the vectors a transform object owns (a `plain` class has no inner BoxCox2: its `bc` field is unused) -/
+def Trans.idx (t : Trans) : List Nat :=
+  match t.kind with
+  | .plain => [t.params, t.constants]
+  | _ => [t.params, t.constants, t.bc]
+
+/-- a process holding several transform instances: every `Class()` call builds its OWN parameter vector, constant
+vector and inner BoxCox2 (nothing is shared between instances, of the same class or of classes written alike) -/
+structure MWorld (α : Type) where
+  world : World α
+  insts : List Trans
+
+def MWorld.empty : MWorld α := ⟨⟨Store.empty, []⟩, []⟩
+
+/-- `Class(**kwargs)`: two or three fresh `Vector(...)` objects appended to the world -/
+def madd [OfNat α 0] (eps : α) (m : MWorld α) (kind : TKind) (p c : Spec α) (b : Option (Spec α)) :
+    Except Err (MWorld α) :=
+  let n := m.world.vecs.length
+  match World.add eps m.world p with
+  | .error e => .error e
+  | .ok w1 => match World.add eps w1 c with
+    | .error e => .error e
+    | .ok w2 =>
+      if kind = .plain then .ok ⟨w2, m.insts ++ [⟨.plain, n, n + 1, n + 2⟩]⟩
+      else match b with
+        | none => .error .index
+        | some sb => match World.add eps w2 sb with
+          | .error e => .error e
+          | .ok w3 => .ok ⟨w3, m.insts ++ [⟨kind, n, n + 1, n + 2⟩]⟩
+
+/-- an operation on the `i`-th instance -/
+def mstep (eps : α) (m : MWorld α) (i : Nat) (op : TOp α) : MWorld α × Out :=
+  match m.insts[i]? with
+  | none => (m, .rejected .index)
+  | some t => ({ m with world := (tstep eps m.world t op).1 }, (tstep eps m.world t op).2)
+
 end
 end HydroVerif.C12
